@@ -343,6 +343,30 @@ func c16Scenario(depth, k, p int) mc.Scenario {
 					ops = append(ops, op{"Pick(a,b,c)", func() { derive(s.Pick("a", "b", "c"), m.clone()) }})
 				}
 				ops = append(ops, op{"Merge(fresh Struct{})", func() { derive(s.Merge(z.Struct(z.Schema{})), m.clone()) }})
+				// a nil field map is a valid field-less schema (z.Struct(nil), an uninitialised z.Schema variable)
+				ops = append(ops, op{"Merge(Struct(nil))", func() { derive(s.Merge(z.Struct(nil)), m.clone()) }})
+				ops = append(ops, op{"Extend(nil)", func() { derive(s.Extend(nil), m.clone()) }})
+				for vi, via := range []string{"Extend({d})", "Omit(zz).Extend({d})", "Extend({}).Merge(Struct{d})", "Merge(Struct(nil)).Extend({d})", "Pick().Extend({d})"} {
+					vi := vi
+					ops = append(ops, op{"new schema: Struct(nil)." + via, func() {
+						nb := z.Struct(nil)
+						d := z.Schema{"d": c16Build("d")}
+						var ns *z.StructSchema
+						switch vi {
+						case 0:
+							ns = nb.Extend(d)
+						case 1:
+							ns = nb.Omit("zz").Extend(d)
+						case 2:
+							ns = nb.Extend(z.Schema{}).Merge(z.Struct(d))
+						case 3:
+							ns = nb.Merge(z.Struct(nil)).Extend(d)
+						default:
+							ns = nb.Pick().Extend(d)
+						}
+						derive(ns, &c16Model{fields: map[string]string{"d": "d"}})
+					}})
+				}
 				ops = append(ops, op{"Extend(shared mixin {b,c,d})", func() {
 					nm := m.clone()
 					nm.fields["b"], nm.fields["c"], nm.fields["d"] = "b", "c", "d"
@@ -498,7 +522,19 @@ func c16Scenario(depth, k, p int) mc.Scenario {
 			}})
 			oi := x.Choose(len(ops), "op")
 			hist = append(hist, fmt.Sprintf("#%d.%s", i, ops[oi].name))
-			ops[oi].do()
+			if msg := func() (msg string) {
+				defer func() {
+					if r := recover(); r != nil {
+						msg = firstLine(fmt.Sprint(r))
+					}
+				}()
+				ops[oi].do()
+				return ""
+			}(); msg != "" {
+				x.Note("history: %s", strings.Join(hist, " ; "))
+				out.Viol = append(out.Viol, &mc.Violation{Key: "C16:panic:" + c16LastOp(hist), What: "a derivation of a well-formed schema panicked", Expected: "a new schema", Observed: msg})
+				break
+			}
 			if !check() {
 				break
 			}
